@@ -11,6 +11,7 @@ for p in C03 C04 C05 C11 C14 C20; do
   for cfg in "1 plain" "4 plain" "16 plain" "16 plain" "4 race" "16 race"; do
     set -- $cfg
     bin=.build/simcheck; [ "$2" = race ] && bin=.build/simcheck-race
+    case $p in C03|C05|C20) bin=.build/simcheck-i; [ "$2" = race ] && bin=.build/simcheck-i-race;; esac
     h=$(GOMAXPROCS=$1 GORACE="exitcode=0 halt_on_error=0 log_path=.build/racelog/det" VERIF_RACELOG=.build/racelog/det VERIF_SEED="${VERIF_SEED:-1}" \
         $bin trace -prop $p -seed "${VERIF_SEED:-1}" -from 0 -count "$count" 2>/dev/null | sed -E 's#/tmp/c(11|05)[a-z]*-[0-9-]*#TMP#g' | md5sum | cut -c1-16)
     [ -z "$ref" ] && ref=$h
